@@ -11,6 +11,7 @@ import numpy as np
 from rv import detmodel as D
 from rv import atoms as AT
 from rv import common as C
+from rv import contracts
 
 N_CASES = {'quick': 640, 'thorough': 16000}
 TIMEOUT = {'quick': 1500, 'thorough': 6 * 3600}
@@ -26,6 +27,10 @@ RULE = ('random deterministic models (ro and dro front ends; C/B/I variables wit
         'optimal and at least one atom/special constraint active (|lhs| <= 1e-4*scale); '
         'distinct by (front, atoms, spellings, vtypes, objective kind, solver)')
 ASSUMPTIONS = ['solver feasibility tolerance 1e-6 (LP/MILP) / 1e-5 (conic)']
+
+
+def setup_worker(ctx):
+    contracts.install_helpers(ctx, ['rso_broadcast'])
 
 
 def gen_case(rng, idx, tier):
